@@ -234,6 +234,7 @@ func c02WorkerMain(script string) {
 	var dir string
 	var spec c02Chron
 	var ch chronicler.Chronicler
+	swampRig := &c25Swamp{}
 	live := 0
 	n := 0
 	for sc.Scan() {
@@ -342,6 +343,8 @@ func c02WorkerMain(script string) {
 					k = 1
 				}
 				c02SetFsize(cur + k)
+			case "swamp", "ssave", "sdel", "stick", "sclose", "sload":
+				res = swampRig.cmd(dir, f)
 			default:
 				res = "bad-cmd"
 			}
@@ -1687,6 +1690,13 @@ func c02RunOps(in *bufio.Scanner, w *bufio.Writer, probe bool) {
 			fmt.Fprintln(w, "ok")
 		case "res", "phantom":
 			fmt.Fprintln(w, "ok")
+		case "sw":
+			// a command on a real swamp (C25): its result was recorded by the run itself
+			if len(f) > 2 && f[1] == "load" {
+				fmt.Fprintln(w, "ok "+f[len(f)-1])
+			} else {
+				fmt.Fprintln(w, "ok")
+			}
 		case "act":
 			switch f[1] {
 			case "load":
